@@ -176,3 +176,65 @@ func RunHTML() {
 	nd.Assert(err == nil, "html.noerr")
 	nd.Assert(root != nil && same(root, doc), "html.mirrors-dom")
 }
+
+func sameDOM(a, b *html.Node) bool {
+	if a.Type != b.Type || a.Data != b.Data || len(a.Attr) != len(b.Attr) {
+		return false
+	}
+	x, y := a.FirstChild, b.FirstChild
+	for x != nil && y != nil {
+		if !sameDOM(x, y) {
+			return false
+		}
+		x, y = x.NextSibling, y.NextSibling
+	}
+	return x == nil && y == nil
+}
+
+func letter() string {
+	b := nd.Byte()
+	nd.Assume(nd.Or(nd.And(b >= 'a', b <= 'z'), nd.And(b >= '0', b <= '9')))
+	return string([]byte{b})
+}
+
+// RunSoup: tag soup for which the HTML5 tree builder leaves ADJACENT text
+// nodes (text foster-parented inside a template in table mode, split by an
+// ignored end tag) and foster-parents content in front of a table. The DOMs
+// below are what x/net/html builds for the given source (checked natively on
+// every replay); the cursor tree must mirror them node for node.
+func RunSoup() {
+	x, y := letter(), letter()
+	doc := &html.Node{Type: html.DocumentNode}
+	doc.AppendChild(&html.Node{Type: html.DoctypeNode, Data: "html"})
+	h := elem("html")
+	doc.AppendChild(h)
+	head, body := elem("head"), elem("body")
+	h.AppendChild(head)
+	h.AppendChild(body)
+	text := ""
+	switch nd.Choice(2) {
+	case 0:
+		table, tmpl := elem("table"), elem("template")
+		body.AppendChild(table)
+		table.AppendChild(tmpl)
+		tmpl.AppendChild(elem("tr"))
+		tmpl.AppendChild(&html.Node{Type: html.TextNode, Data: x})
+		tmpl.AppendChild(&html.Node{Type: html.TextNode, Data: y})
+		text = "<!DOCTYPE html><body><table><template><tr>" + x + "</em>" + y + "</template></table>"
+	case 1:
+		body.AppendChild(&html.Node{Type: html.TextNode, Data: x})
+		b := elem("b")
+		body.AppendChild(b)
+		b.AppendChild(&html.Node{Type: html.TextNode, Data: y})
+		body.AppendChild(elem("table"))
+		text = "<!DOCTYPE html><table>" + x + "<b>" + y + "</table>"
+	}
+	if !nd.Symbolic() {
+		real, err := html.Parse(strings.NewReader(text))
+		nd.Assert(err == nil && sameDOM(real, doc), "soup.scripted-dom-is-what-the-tree-builder-yields")
+	}
+	root, err := xsel.ReadHtml(&hx.HTMLScript{Doc: doc, Text: text})
+	nd.Reach("soup")
+	nd.Assert(err == nil, "soup.noerr")
+	nd.Assert(root != nil && same(root, doc), "soup.mirrors-dom")
+}
